@@ -1147,6 +1147,13 @@ class Exec(ExecBase):
         for v, st1 in self.ev(s.value, st):
             if len(s.targets) == 1 and isinstance(s.targets[0], ast.Name):
                 v = self.retype_empty(v, s.targets[0].id, None, st1)
+            if len(s.targets) == 1 and isinstance(s.targets[0], ast.Subscript):
+                # `a[k1][k2] = v`: evaluating the container may fork (a defaultdict creates a missing entry)
+                t = s.targets[0]
+                for base, st2 in self.ev(t.value, st1):
+                    for idx, st3 in self.ev(t.slice, st2):
+                        yield "fall", None, self.setitem(t.value, base, idx, v, st3, t)
+                continue
             st2 = st1
             for t in s.targets:
                 st2 = self.assign_target(t, v, st2)
